@@ -67,7 +67,9 @@ CLAIMED = {
          "big-step semantics of goals. UNBOUNDED completeness of append, member, member1, rember, distinct and permute-as-defined (RelComplete, LibComplete): whenever a valuation solves the "
          "state the call starts from and the values of the arguments under it are in the relation (any mode, arbitrary terms, whatever else the "
          "state holds), the call delivers after finitely many steps an answer solved by a valuation that agrees with it on every variable that "
-         "existed before the call - so with soundness the solutions of the delivered answers are exactly the relation. "
+         "existed before the call - so with soundness the solutions of the delivered answers are exactly the relation; read on lists of any "
+         "length: every split of l is covered by an answer of append(q0, q1, l), every element by an answer of member(q0, l). These instantiate "
+         "a general theorem (RelComplete) for programs of ==, !=, domains, constraints, conjunction, disjunction, fresh, relation calls and closure blocks. "
          "BOUNDED exactness (answer sets and counts): for every list over {1,2} (length <= 3/4) the engine model, "
          "evaluated inside Coq (forallb by vm_compute, lifted), gives exactly the answers of the Vec-based definition for append (both "
          "directions), member, member1, rember, distinct, cons/first/rest/empty. Beyond that scope all argument modes are compared with "
@@ -97,13 +99,16 @@ CLAIMED = {
          "without recursion and before labeling (domains, all constraints, ==, !=, interleaving conjunction/disjunction, fresh): every "
          "solution of the reading solves an answer state that is delivered after finitely many steps unless an engine step errs first "
          "(Complete0.complete0_delivered), and labeling loses none either: force_ans(q) started in a state th solves delivers a state th "
-         "still solves, through lists and compound terms (ForceC.force_delivered, flat_then_label). Not proved: the labeling of hidden "
-         "variables under onceo, recursion, and the second half of uniqueness (a program without disjunction has at most one answer "
+         "still solves, through lists and compound terms (ForceC.force_delivered, flat_then_label). The same holds for programs with "
+         "CALLS of recursively defined relations and closure blocks, up to the variables drawn while running, given a value-level reading of the "
+         "relations that unfolds to the reading of their bodies (RelComplete.completeV, LibCor.calls_then_label; discharged for the library list "
+         "relations). Not proved: the labeling of hidden "
+         "variables under onceo, for/project bodies, and the second half of uniqueness (a program without disjunction has at most one answer "
          "state before labeling - Unique.det_one_answer - and labeling enumerates each domain value once, but that the labeled answers "
          "are pairwise different is checked, not proved); completeness and uniqueness over whole programs are decided "
          "against brute force (query variables, lists, compounds, hidden variables).",
          "6/C17", "Coq proof that no state operation loses a solution (all constraint kinds, any operands) + brute-force projection oracle + differential correspondence",
-         "The whole-program lift of completeness (search fairness, labeling order, uniqueness) is not mechanised."),
+         "The whole-program lift of completeness is mechanised for recursion-free programs and for programs with relation calls given a value-level reading; labeling of hidden variables and uniqueness of labeled answers are not."),
  "C19": ("Theorems by case analysis on groundness, for all states and operands: all ground = decided exactly; two ground = the third bound to "
          "the unique solution (division exact and divisor non-zero), failure when none exists, constraint kept when every integer works; fewer "
          "ground = kept (including all three unbound); never a panic outcome. Semantically, as posted goals on any state: every solution of "
